@@ -22,7 +22,9 @@ TRUSTED = ['Model/TempIds.v (hand-written): compared with the running engine on 
            'cell conversion (usertypes convert, C22) is applied by the harness for the small vocabulary used: '
            'int -> int, None -> 0 / None, [] -> None, text -> alt text',
            'engine rollback after an exception (C04) is observed on the implementation, not modelled']
-ASSUMPTIONS = ['every generated update sets column A to a value not stored anywhere, so trim_update_action never drops '
+ASSUMPTIONS = ['in an update that names a row more than once only the last occurrence counts (fix 060dc6b): values of the '
+               'earlier occurrences are overridden within the action and are not checked',
+               'every generated update sets column A to a value not stored anywhere, so trim_update_action never drops '
                'a row and an update of a missing row always reaches the doc action\'s assertion',
                'no two-way reference columns and no formula columns in the generated documents']
 
@@ -521,11 +523,18 @@ def resolve(acts, sch, rets):
             bad_rows.append(x)
           ids.append(x)
       b['ids'] = ids
+    keep = list(range(len(a['ids'])))
+    if a['op'] == 'update':
+      # a row named more than once keeps its last occurrence (doBulkUpdateRecord since fix 060dc6b): the values of
+      # the earlier occurrences are overridden inside the same action and are not reference values of the bundle
+      last = {r: i for i, r in enumerate(b['ids'])}
+      keep = sorted(last.values())
+      b['ids'] = [b['ids'][i] for i in keep]
     for col, tgt in (('R', sch[t][0]), ('L', sch[t][1])):
       if a[col] is None:
         continue
       new = []
-      for v in a[col]:
+      for v in [a[col][i] for i in keep]:
         def one(r):
           if isinstance(r, int) and not isinstance(r, bool) and r < 0:
             if r in maps[tgt]:
